@@ -31,11 +31,27 @@ class SnapshotHooks:
     def on_with_exit(self, ex, st, key, cm, node, sig):
         if key.endswith('mdib_lock'):
             st.ghost['depth'] = st.ghost.get('depth', 0) - 1
+            if st.ghost['depth'] == 0:
+                # a table's own container (mutated in place by later commits) must not leave the section: only copies
+                # (list(...), comprehensions, lookups' result lists) may
+                leaked = []
+                for name, v in st.locals.items():
+                    if v.kind not in ('any', 'ref'):
+                        continue
+                    e = st.box(v) if v.kind == 'any' else Val.ref(v.e)
+                    if any(z3.is_true(z3.simplify(e == live)) for live in st.ghost.get('c:live', ())):
+                        leaked.append(name)
+                ex.oblige(st, 'no_live_table_container_leaves_the_critical_section', z3.BoolVal(not leaked),
+                          info={'locals': str(leaked)})
 
     def log(self, st, what):
         st.ghost['reads'] = st.ghost.get('reads', ()) + ((what, st.ghost.get('depth', 0) > 0, st.ghost.get('epoch', 0)),)
 
     def on_attr_read(self, ex, st, o, attr, node):
+        if attr == 'objects' and o.path and o.path.split('.')[-1] in TABLES:
+            v = st.read_field(ex.concrete_kind(st, o, ('ref',)), 'objects')
+            st.ghost['c:live'] = st.ghost.get('c:live', ()) + (st.box(v),)
+            return [(st, v)]
         if o.path in self.mdib_paths:
             if attr in TABLES:
                 self.log(st, attr)
